@@ -92,6 +92,9 @@ class FilterChecker:
         self.refusals = 0
         self.prunes = 0
         self.n = 0
+        # update() is called the way Solver.solve calls it: (current iterate = last accepted point, trial point);
+        # before the first acceptance the current iterate is the start, which the filter has never seen
+        self.prev = _StubIterate(1.0e3, 1.0e3)
 
     def apply(self, op):
         kind, a, b = op[0], float(op[1]), float(op[2])
@@ -104,8 +107,11 @@ class FilterChecker:
             if not isinstance(got, bool):
                 return f"insert-returns-{type(got).__name__}", f"filter_insert returned {got!r}"
         else:
-            res = self.filt.update(None, _StubIterate(a, b))
+            trial = _StubIterate(a, b)
+            res = self.filt.update(self.prev, trial)
             accepted = bool(res.accept)
+            if accepted:
+                self.prev = trial
             exp_rho = self.rho if not expect_refuse else self.rho * 10.0
             if res.next_rho != exp_rho:
                 return "update-rho", f"update({new}) returned rho {res.next_rho}, expected {exp_rho} (refuse={expect_refuse})"
